@@ -61,6 +61,19 @@ def plan(tier, seed):
                                      (32, 'unsigned char', 0, 15, 'signed char', 0), (7, 'signed char', -3, 64, 'unsigned', 1),
                                      (33, 'unsigned', -1, 30, 'unsigned', 5), (16, 'unsigned', 0, 16, 'int', 0)]:
         add(sc(el_(d1, n1), e1), sc(el_(d2, n2), e2), 'elastic%d_%s:%d|elastic%d_%s:%d' % (d1, short(n1), e1, d2, short(n2), e2))
+    # nested wrapper reps as static_number spells them (a rounding_integer around an overflow-checked elastic_integer), 45..100 digits,
+    # every rounding tag: sums and products that pass 2^63 and 2^64
+    for rt in ('cnl::nearest_rounding_tag', 'cnl::native_rounding_tag', 'cnl::neg_inf_rounding_tag', 'cnl::tie_to_pos_inf_rounding_tag'):
+        for (d1, e1, d2, e2) in [(80, -10, 80, -10), (45, -10, 45, -3), (64, 0, 64, -2), (100, -50, 30, 4)]:
+            if quick and rt != 'cnl::nearest_rounding_tag' and d1 != 80:
+                continue
+            sn = 'cnl::static_number<%d, %d, ' + rt + ', cnl::saturated_overflow_tag, int>'
+            add(sn % (d1, e1), sn % (d2, e2), 'static_number_%s|%d:%d|%d:%d' % (rt.split('::')[1].replace('_rounding_tag', ''), d1, e1, d2, e2))
+    # elastic reps (unsigned Narrowest in particular) with a built-in operand on either side
+    for (d, n, e, b) in [(40, 'unsigned', -4, 'int'), (20, 'unsigned', 0, 'long'), (8, 'unsigned char', 0, 'signed char'), (64, 'unsigned', -10, 'long'), (33, 'unsigned', -1, 'short'),
+                         (40, 'int', -4, 'unsigned'), (31, 'unsigned', 3, 'int')]:
+        add(sc(el_(d, n), e), b, 'elastic%d_%s:%d|builtin_%s' % (d, short(n), e, short(b)))
+        add(b, sc(el_(d, n), e), 'builtin_%s|elastic%d_%s:%d' % (short(b), d, short(n), e))
     if not quick:
         for lr, rr, el, er in [(S128, S128, -70, -64), (U128, S64, 60, 70), (S128, S32, -40, -10), (S64, S64, -70, -40), (U64, U64, 40, 70),
                                (S64, S128, 0, 0), (U128, U128, -5, -5)]:
